@@ -17,8 +17,8 @@ class Reason(Exception):
     pass
 
 
-def _check(doc, flags, bits, list_kind, early, lazy, choices, stop_after, abort_at, reason_kind, source_fail_at, nn_null):
-    root = make_root(nn_null, False)
+def _check(doc, flags, bits, list_kind, early, lazy, choices, stop_after, abort_at, reason_kind, source_fail_at, nn_null, bad_raises=False):
+    root = make_root(nn_null, bad_raises)
     reason = [None, Reason("stop"), "not an exception"][reason_kind] if abort_at is not None else None
     try:
         d, loop, sched, world = run_incremental(doc, root, flags, bits, list_kind, early, lazy, choices,
@@ -46,7 +46,7 @@ def _check(doc, flags, bits, list_kind, early, lazy, choices, stop_after, abort_
 
 
 def stop_points(f0: bool, f1: bool, b0: bool, b1: bool, b2: bool, b3: bool, b4: bool, lazy: bool, c0: int, c1: int, c2: int, c3: int,
-                stop_after: int, abort_at: int, reason_kind: int, *, doc: int, list_kind: int, early: bool, kind: int, nn_null: bool = False) -> bool:
+                stop_after: int, abort_at: int, reason_kind: int, *, doc: int, list_kind: int, early: bool, kind: int, nn_null: bool = False, bad_raises: bool = False) -> bool:
     """For every stop point and stop kind: the caller is released, the loop reaches quiescence
     with nothing started by the execution still pending, every started source iterator is closed
     exactly once, and the work-finished hook fires exactly once after all tracked work settled."""
@@ -64,7 +64,7 @@ def stop_points(f0: bool, f1: bool, b0: bool, b1: bool, b2: bool, b3: bool, b4: 
     elif kind == 3:    # the source iterator raises at position p
         sf = forked(stop_after, 0, 3)
     rk = forked(reason_kind, 0, 3)
-    r = concrete(_check, doc, flags, bits, list_kind, early, True if lazy else False, [c0, c1, c2, c3], sa, aa, rk, sf, nn_null)
+    r = concrete(_check, doc, flags, bits, list_kind, early, True if lazy else False, [c0, c1, c2, c3], sa, aa, rk, sf, nn_null, bad_raises)
     if not r[0]:
         note(r[1])
     return verdict(r[0])
@@ -99,7 +99,7 @@ def blocked_deferred_resolver(b2: bool, b4: bool, lazy: bool, c0: int, c1: int, 
 
 BOUNDS = {
     "quick": [
-        "templates 0, 2, 4, 6, 10, 11, 15 of the incremental family (15: a stream whose second item fails as a whole, possibly asynchronously); hand-written source iterators count their aclose() calls; stop kinds: none / aclose after 0..3 payloads / abort signal (AbortError, an exception, a non-exception reason) before the 0..5th settlement / source iterator raising at item 0..2 / resolver errors; symbolic directive flags, 5 sync-or-awaitable positions, consumer timing, 4 scheduler decisions; cells: template x list kind x early execution x stop kind",
+        "templates 0, 2, 4, 6, 10, 11, 15 of the incremental family (15: a stream whose second item fails as a whole, possibly asynchronously); hand-written source iterators count their aclose() calls; stop kinds: none / aclose after 0..3 payloads / abort signal (AbortError, an exception, a non-exception reason) before the 0..5th settlement / source iterator raising at item 0..2 / resolver errors; template 16 (plain execution): synchronously raising non-null fields next to pending awaitable siblings at two nested levels; symbolic directive flags, 5 sync-or-awaitable positions, consumer timing, 4 scheduler decisions; cells: template x list kind x early execution x stop kind",
     ],
     "thorough": ["all 12 templates, larger budget"],
 }
@@ -122,13 +122,17 @@ def cells(tier):
                         continue
                     if not th and lk == 2 and kind in (0,):
                         continue
+                    if doc == 16:
+                        continue
                     out.append(dict(doc=doc, list_kind=lk, early=early, kind=kind, nn_null=(doc in (4, 10))))
+    for lk in (0, 2):  # template 16: plain execution, resolvers raising synchronously at two levels
+        out.append(dict(doc=16, list_kind=lk, early=False, kind=0, nn_null=False, bad_raises=True))
     return out
 
 
 def obligations(tier):
     th = tier == "thorough"
-    obs = [dict(fn="stop_points", cell=c, budget_s=1200 if th else 40, expect_confirm=th) for c in cells(tier)]
+    obs = [dict(fn="stop_points", cell=c, budget_s=1200 if th else 25, expect_confirm=th) for c in cells(tier)]
     for lk in (0, 1, 2):
         for early in (False, True):
             for doc in (10, 12):
@@ -144,6 +148,9 @@ def corpus():
                 yield "blocked_deferred_resolver", dict(list_kind=lk, early=early, doc=doc), dict(b2=True, b4=False, lazy=True, c0=1, c1=0, c2=0)
     base = dict(f0=True, f1=True, b0=False, b1=False, b2=False, b3=False, b4=False, lazy=False, c0=0, c1=0, c2=0, c3=0, stop_after=1, abort_at=1, reason_kind=1)
     for c in cells("quick"):
+        if c["doc"] == 16:
+            yield "stop_points", c, dict(base, b0=True, b3=True)
+            yield "stop_points", c, dict(base, b0=True, b3=True, b2=True, c0=1, c1=2)
         yield "stop_points", c, dict(base)
         yield "stop_points", c, dict(base, b0=True, b3=True, stop_after=0, abort_at=0, reason_kind=2)
         yield "stop_points", c, dict(base, b0=True, b1=True, lazy=True, stop_after=2, abort_at=3, reason_kind=0, c0=1)
